@@ -1,11 +1,12 @@
 PROPS["C14"] = prop(
     "exploration",
-    "rapid-generated programs of parallel request batches (sub/leave/unsub/pub/get/del topic/evict/disconnect, slow consumers, idle unloads) issued by concurrent goroutines under the Go race detector; quiescence invariants: every request answered, session.subs <=> topic.sessions, online counters exact, no goroutine left, no deadlock/hang; session 3: connections replaced inside a batch, abandoned long-polling sessions which the registry expires, batches sent at the moment of the idle timer, store latency, deletion of an unloaded P2P topic",
+    "rapid-generated programs of parallel request batches (sub/leave/unsub/pub/get/del topic/evict/disconnect, slow consumers, idle unloads) issued by concurrent goroutines under the Go race detector; quiescence invariants: every request answered, session.subs <=> topic.sessions, online counters exact, no goroutine left, no deadlock/hang; session 3: connections replaced inside a batch, abandoned long-polling sessions which the registry expires, batches sent at the moment of the idle timer, store latency, deletion of an unloaded P2P topic; TestC14StatusBits: one goroutine per status flag of a topic (paused, read-only, deleted, loaded) writes a generated set/clear sequence through the topic's own methods on real cores, oracle = every flag ends as its own goroutine wrote it last (lost updates between individually atomic accesses, which the race detector cannot see)",
     "program = 4-6 sessions of 3 users + prologue + 2-8 batches (2..n concurrent requests from distinct sessions, generated yields), reconnects, ticks around the idle timeout, slow-consumer floods; "
     "non-trivial = a batch with >=3 concurrent requests touching one topic of which >=1 detaches, disconnects or deletes; distinct = FNV-64 of the program",
     "Schedules are sampled from what the Go runtime produces under generated perturbation; every race-detector report, unanswered request, attachment-table asymmetry, wrong online counter, leaked goroutine, deadlock or hang is a violation.",
     "Interleavings are sampled, not enumerated; white-box reads happen at synctest quiescence; a worker killed by the race detector is recovered from the write-ahead log and replayed.",
     "5/C14", "world-race",
-    [Unit("TestC14Races", "server", race=True, quick=250, thorough=12000, shards_quick=8, shards_thorough=16, crash_is_violation=True, timeout_quick=400, timeout_thorough=7200, replay_tries=8)],
+    [Unit("TestC14Races", "server", race=True, quick=250, thorough=12000, shards_quick=8, shards_thorough=16, crash_is_violation=True, timeout_quick=400, timeout_thorough=7200, replay_tries=8),
+     Unit("TestC14StatusBits", "server", quick=400, thorough=20000, shards_quick=2, shards_thorough=8, replay_tries=8)],
     ["a deleted topic's sessions are 'told' by {pres gone} on 'me' when the user has a session there; sessions not on 'me' are only detached"],
 )
